@@ -1221,3 +1221,62 @@ Lemma ex_pick_facts :
 Proof.
   repeat split; try reflexivity. intros b q [H|[H|[H|[]]]]; inversion H; subst; discriminate.
 Qed.
+
+(* ------------------------------------------------------------------ L. histories: get_consensus is stateless *)
+Section History.
+  Variable skip : bool -> frag -> bool.
+
+  Lemma step_state st o : fst (step skip st o) = st ++ op_frags o.
+  Proof. destruct o as [[|] f|f|fs|ds pr]; cbn [step fst op_frags]; rewrite ?app_nil_r; reflexivity. Qed.
+
+  Lemma run_ops_app p : forall st q,
+    run_ops skip st (p ++ q) = run_ops skip st p ++ run_ops skip (st ++ held p) q.
+  Proof.
+    induction p as [|o p IH]; intros st q.
+    - cbn [app run_ops held flat_map]. rewrite app_nil_r. reflexivity.
+    - cbn [app run_ops]. rewrite IH, step_state. unfold held. cbn [flat_map]. rewrite <- !app_assoc. reflexivity.
+  Qed.
+
+  (* whatever was added and asked before (any operation sequence p), a query answers for exactly the fragments held *)
+  Theorem history_query p st ds pr :
+    run_ops skip st (p ++ [OpGet ds pr]) = run_ops skip st p ++ [answer_of skip ds pr (st ++ held p)].
+  Proof. rewrite run_ops_app. cbn [run_ops step fst snd]. rewrite app_nil_r. reflexivity. Qed.
+
+  (* the number of answers is the number of queries: nothing else answers, nothing is dropped *)
+  Lemma run_ops_length ops : forall st,
+    length (run_ops skip st ops) = length (filter (fun o => match o with OpGet _ _ => true | _ => false end) ops).
+  Proof.
+    induction ops as [|o ops IH]; intros st; [reflexivity|]. cbn [run_ops filter]. rewrite app_length, IH.
+    destruct o as [[|] f|f|fs|ds pr]; reflexivity.
+  Qed.
+
+  (* two histories that hold the same fragments (as multisets; any routes, orders, intervening queries) answer alike *)
+  Theorem history_route_independent p1 p2 ds : Permutation (held p1) (held p2) ->
+    exists r1 r2, run_ops skip [] (p1 ++ [OpGet ds false]) = run_ops skip [] p1 ++ [AnsCons r1] /\
+                  run_ops skip [] (p2 ++ [OpGet ds false]) = run_ops skip [] p2 ++ [AnsCons r2] /\
+                  r1 = mol_consensus skip ds (held p1) /\ r2 = mol_consensus skip ds (held p2) /\ res_equiv r1 r2.
+  Proof.
+    intros H. exists (mol_consensus skip ds (held p1)), (mol_consensus skip ds (held p2)).
+    rewrite !history_query. cbn [app answer_of]. repeat split. apply perm_invariant. assumption.
+  Qed.
+
+  (* asking twice gives the same answer; asking does not change later answers *)
+  Theorem history_query_idempotent p ds pr ds' pr' :
+    run_ops skip [] (p ++ [OpGet ds' pr'; OpGet ds pr]) =
+    run_ops skip [] p ++ [answer_of skip ds' pr' (held p); answer_of skip ds pr (held p)].
+  Proof.
+    rewrite run_ops_app. cbn [run_ops step fst snd app]. reflexivity.
+  Qed.
+End History.
+
+Definition ex_history : list op :=
+  [OpAdd true (nth 0 ex_mol []); OpGet false false; OpMol [nth 1 ex_mol []; nth 2 ex_mol []]; OpGet false false;
+   OpAdd false (nth 0 ex_mol []); OpGet true true; OpRaw (nth 1 ex_mol []); OpGet false false].
+Lemma ex_history_facts :
+  run_ops skip_fixed [] ex_history =
+  [AnsCons (Ok [((0, 20), bA); ((0, 21), bG)]);
+   AnsCons (Ok [((0, 21), bG)]);
+   AnsProbs (Ok [((0, 21), bT)]) (Ok [((0, 21), (0, 0, 0, 1, 0))]);
+   AnsCons (Ok [((0, 20), bC); ((0, 21), bG)])] /\
+  held ex_history = ex_mol ++ [nth 1 ex_mol []].
+Proof. vm_compute. split; reflexivity. Qed.
